@@ -52,12 +52,17 @@ def run_case(case):
     o = dict(GridSize=n, StepsPerTs=steps, DampingTime=td, rotations=periods, outstep=max(1, int(periods * steps / nrec)),
              VacuumGap=0.0, InitialDistZoom=z, InterpolationPoints=case["it"], derivation=case["deriv"], FPType=fpt,
              RenormalizeCharge=case["renorm"])
+    if case.get("off_via_td"):
+        # the second way to switch the Fokker-Planck term off: DampingTime = 0 ("Fokker-Planck-Term is neglected."), with the
+        # full operator type selected (round-6 seed C04f falls back to the ring's calculated damping time for exactly 0)
+        o["DampingTime"] = 0.0
+        o["FPType"] = 3
     if case.get("via_rev"):
         # the documented second route to the step count: StepsPerRevolution overwrites StepsPerTs (which carries a decoy)
         o["StepsPerRevolution"] = float(steps * d0["fs"] / d0["frev"])
         o["StepsPerTs"] = int(case["via_rev"])
     h, msg = run_one(o, wd, "r.h5")
-    cls = (["steps_per_revolution"] if case.get("via_rev") else []) + ["fpt%d" % fpt, "d%d" % case["deriv"], "it%d" % case["it"], "n%d" % n,
+    cls = (["steps_per_revolution"] if case.get("via_rev") else []) + (["off_via_dampingtime"] if case.get("off_via_td") else []) + ["fpt%d" % fpt, "d%d" % case["deriv"], "it%d" % case["it"], "n%d" % n,
            "zoom<0.3" if z < 0.3 else ("zoom<0.75" if z < 0.75 else ("zoom>1.25" if z > 1.25 else "zoom~1"))]
     if h is None:
         return Outcome(False, True, cls, msg, sig="c04:runfail")
@@ -161,6 +166,10 @@ def cases(draw, fast=True):
     if fpt == 0:
         c["K"] = min(5.0, 5.0 * e1 * steps / 10 * 1.0)      # at most 5 synchrotron periods
         c["zoom"] = min(max(z, 0.5), 1.3)
+        if draw(st.booleans()):
+            c["off_via_td"] = True
+            c["zoom"] = draw(st.sampled_from([0.5, 0.6]))
+            c["K"] = 2.5 * e1 * steps               # K*td*fs = 2K/(e1*steps) = 5 synchrotron periods
     return c
 
 
